@@ -9,6 +9,7 @@ import (
 	"github.com/mithrandie/csvq/lib/option"
 	"github.com/mithrandie/csvq/lib/parser"
 	"github.com/mithrandie/csvq/lib/value"
+	"github.com/mithrandie/csvq/lib/vhook"
 )
 
 var errTableNotLoaded = errors.New("table not loaded")
@@ -115,6 +116,7 @@ func (m ViewMap) Dispose(container *file.Container, identifier string) error {
 
 func (m ViewMap) Clean(container *file.Container) error {
 	keys := m.Keys()
+	vhook.SortStrings(keys)
 	for _, k := range keys {
 		if err := m.Dispose(container, k); err != nil {
 			return err
@@ -125,6 +127,7 @@ func (m ViewMap) Clean(container *file.Container) error {
 
 func (m ViewMap) CleanWithErrors(container *file.Container) error {
 	keys := m.Keys()
+	vhook.SortStrings(keys)
 	var errs []error
 	for _, k := range keys {
 		if view, ok := m.Load(k); ok {
